@@ -9,7 +9,8 @@ against each.
 import json, os, subprocess, sys, shutil, glob, re, concurrent.futures as cf
 
 V = os.path.dirname(os.path.dirname(os.path.abspath(__file__)))
-SRC = "/tmp/wt"
+SRC = os.environ.get("SEEDED_SRC", "/tmp/wt")
+TAG = os.environ.get("SEEDED_TAG", "m")      # round 1: m, round 2: n
 WS = "/tmp/ws"
 PY = "/venv/bin/python"
 
@@ -30,7 +31,7 @@ def suite(wt):
 
 def confirm_one(args):
     prop, idx, base = args
-    sid = f"{prop}_m{idx}"
+    sid = f"{prop}_{TAG}{idx}"
     out = f"{SRC}/{prop}/out"
     diff, demo, meta = f"{out}/m{idx}.diff", f"{out}/demo_m{idx}.py", f"{out}/meta_m{idx}.json"
     if not (os.path.exists(diff) and os.path.exists(demo)):
@@ -97,7 +98,7 @@ def confirm(props):
     for prop in props:
         for f in sorted(glob.glob(f"{SRC}/{prop}/out/m*.diff")):
             idx = re.search(r"m(\d+)\.diff", f).group(1)
-            if os.path.exists(f"{V}/seeded/{prop}_m{idx}/meta.json"):
+            if os.path.exists(f"{V}/seeded/{prop}_{TAG}{idx}/meta.json"):
                 continue
             jobs.append((prop, idx, base))
     with cf.ThreadPoolExecutor(max_workers=6) as ex:
@@ -150,5 +151,5 @@ if __name__ == "__main__":
     if cmd == "confirm":
         confirm(sys.argv[2:])
     elif cmd == "detect":
-        ids = sys.argv[2:] or sorted(os.path.basename(p) for p in glob.glob(f"{V}/seeded/C*_m*"))
+        ids = sys.argv[2:] or sorted(os.path.basename(p) for p in glob.glob(f"{V}/seeded/C*_[mn]*"))
         detect(ids, tier=os.environ.get("SEEDED_TIER", "quick"))
